@@ -4,13 +4,17 @@ case:  d=<n> k=<val|exc|base|self> ig=<0|1> D=<n> c=<n|->
   d  instant at which the wrapped function's own delay is over (0: it never suspends)
   k  how it ends: returns a value / raises an Exception / raises a BaseException subclass /
      raises CancelledError itself;   ig=1: it swallows the first cancellation and keeps waiting
-  D  the timeout;   c  instant at which cancel() is called on the calling task (- = never)
+  D  the timeout;   c  instant at which cancel() is called on the calling task (- = never);
+     c=<t>+<k>: the harness steps the loop k single iterations into instant t (so between the callbacks
+     that instant's events trigger: timer fired / task step / on_completion / on_result + caller wake-up)
+     and then calls cancel() from outside
 observation (one line, no messages, no addresses):
   out=<res|exc|base|timeout|cancelled|hang>@<virtual instant>   caller outcome
   at=<finished|cancelled|running:<n>|unstarted>   the function when the caller's instant is over
   end=…  seen=<cancellations delivered inside the function>  pend=<tasks alive at final quiescence>
   handler=<calls of the loop exception handler caused by a failing callback>
   tm=<timers still armed at the end of the first instant at which caller and function are both done>
+  acc=<return value of cancel() on the caller: 1 = the caller was not done yet, - = never cancelled>
 """
 from __future__ import annotations
 
@@ -18,18 +22,6 @@ import asyncio
 import itertools
 
 from harness import core, vloop
-
-# Workaround (reported): harness/vloop.py freezes `time.monotonic` process-wide; multiprocessing's
-# `connection.wait(timeout=0)` then never returns and the Pool of core.run_real_many never exits.
-# Give the multiprocessing modules the real clock.
-import types as _types
-import multiprocessing.connection as _mpc
-import multiprocessing.pool as _mpp
-import time as _time_mod
-
-_REAL = _types.SimpleNamespace(monotonic=vloop.real_monotonic, sleep=vloop._REAL_SLEEP, time=_time_mod.time)
-_mpc.time = _REAL
-_mpp.time = _REAL
 
 PID = "C16"
 LEAN_COMPONENT = "timeout"
@@ -39,7 +31,9 @@ KINDS = ["val", "exc", "base", "self"]
 RULE = ("case = (function delay d, how it ends in {value, Exception, BaseException subclass, raises CancelledError itself}, "
         "swallows first cancellation or not, timeout D, caller cancellation instant c or none) in exact virtual time; "
         "both tiers: the full grid d in {0,1,3,6} x D in {0,1,2,3,4,6,8} x c in {none,0..9} x 8 profiles (2464 cases, "
-        "includes every ordering and every tie of the three instants); thorough adds the full grid d,D in 0..5, c in {none,0..6} "
+        "includes every ordering and every tie of the three instants) plus the cancellation placed 0..5 single loop iterations "
+        "into the instant of the function's end and of the deadline (2100 cases: between timer, task step, on_completion, "
+        "on_result and the caller's wake-up); thorough adds the full grid d,D in 0..5, c in {none,0..6} "
         "and random instants up to 40; non-trivial = anything but 'value-returning function finishes strictly first, nobody "
         "cancels': the deadline or a caller cancellation comes at or before the function's end, or the function ends with an "
         "error / cancelled; distinct = by case text")
@@ -60,17 +54,32 @@ class BE(BaseException):
     pass
 
 
-def parse(case: str):
+def parse_full(case: str):
+    """(d, kind, ig, D, c, k): k = number of single loop iterations into instant c after which the caller is
+    cancelled from outside the loop (None: a timer armed before the call does it)"""
     f = dict(t.split("=", 1) for t in case.split())
     d, dl = int(f["d"]), int(f["D"])
-    c = None if f["c"] == "-" else int(f["c"])
-    if f["k"] not in KINDS or f["ig"] not in ("0", "1") or d < 0 or dl < 0 or (c is not None and c < 0):
+    ck = None
+    if f["c"] == "-":
+        c = None
+    elif "+" in f["c"]:
+        a, b = f["c"].split("+", 1)
+        c, ck = int(a), int(b)
+    else:
+        c = int(f["c"])
+    if (f["k"] not in KINDS or f["ig"] not in ("0", "1") or d < 0 or dl < 0 or (c is not None and c < 0)
+            or (ck is not None and not 0 <= ck <= 50)):
         raise ValueError(case)
-    return d, f["k"], f["ig"] == "1", dl, c
+    return d, f["k"], f["ig"] == "1", dl, c, ck
 
 
-def fmt(d, k, ig, dl, c) -> str:
-    return f"d={d} k={k} ig={int(ig)} D={dl} c={'-' if c is None else c}"
+def parse(case: str):
+    return parse_full(case)[:5]
+
+
+def fmt(d, k, ig, dl, c, ck=None) -> str:
+    cs = "-" if c is None else str(c) if ck is None else f"{c}+{ck}"
+    return f"d={d} k={k} ig={int(ig)} D={dl} c={cs}"
 
 
 def corpus():
@@ -90,6 +99,11 @@ def corpus():
         "d=3 k=val ig=0 D=5 c=3",
         "d=6 k=exc ig=1 D=3 c=3",
         "d=0 k=val ig=0 D=0 c=0",
+        "d=3 k=val ig=0 D=5 c=3+3",   # cancel lands between the result future being completed and the caller resuming
+        "d=3 k=exc ig=0 D=5 c=3+3",
+        "d=5 k=val ig=0 D=3 c=3+1",   # same window after the deadline
+        "d=5 k=val ig=1 D=3 c=3+2",
+        "d=0 k=val ig=0 D=2 c=0+0",
     ]
 
 
@@ -97,20 +111,32 @@ def generate(rng, tier):
     cs = [None, *range(10)]
     for d, k, ig, dl, c in itertools.product((0, 1, 3, 6), KINDS, (False, True), (0, 1, 2, 3, 4, 6, 8), cs):
         yield fmt(d, k, ig, dl, c)
+    # cancellation placed 0..5 single loop iterations into the instant of the function's end / of the deadline
+    for d, k, ig, dl in itertools.product((0, 1, 3, 6), KINDS, (False, True), (0, 1, 2, 3, 4, 6, 8)):
+        for c in sorted({d, dl}):
+            for ck in range(6):
+                yield fmt(d, k, ig, dl, c, ck)
     if tier == "thorough":
         for d, k, ig, dl, c in itertools.product(range(6), KINDS, (False, True), range(6), [None, *range(7)]):
             yield fmt(d, k, ig, dl, c)
     for _ in range(400 if tier == "quick" else 40000):
         hi = rng.choice((4, 10, 40))
-        c = None if rng.random() < 0.25 else rng.randint(0, hi)
-        yield fmt(rng.randint(0, hi), rng.choice(KINDS), rng.random() < 0.5, rng.randint(0, hi), c)
+        d, dl = rng.randint(0, hi), rng.randint(0, hi)
+        r = rng.random()
+        if r < 0.2:
+            c, ck = None, None
+        elif r < 0.6:
+            c, ck = rng.randint(0, hi), None
+        else:
+            c, ck = rng.choice((d, dl, min(d, dl))), rng.randint(0, 7)
+        yield fmt(d, rng.choice(KINDS), rng.random() < 0.5, dl, c, ck)
 
 
 def run_real(case: str) -> str:
     from haiway import timeout
 
     try:
-        d, kind, ig, dl, c = parse(case)
+        d, kind, ig, dl, c, ck = parse_full(case)
     except Exception:  # noqa: BLE001
         return "bad-case"
     loop = vloop.new_loop()
@@ -156,16 +182,24 @@ def run_real(case: str) -> str:
         when = {}
         caller = loop.create_task(fn())
         caller.add_done_callback(lambda _t: when.setdefault("t", clock.now - t0))
-        if c is not None:
-            loop.call_at(t0 + c, caller.cancel)
+        acc = {}
+        if c is not None and ck is None:
+            loop.call_at(t0 + c, lambda: acc.setdefault("v", caller.cancel()))
         at = None
         tm = None
         for t in sorted({0, d, dl} | ({c} if c is not None else set())):
+            if ck is not None and t == c:
+                # everything before instant c is over; enter the instant, run exactly ck loop iterations, cancel
+                clock.now = max(clock.now, t0 + t)
+                for _ in range(ck):
+                    loop.call_soon(loop.stop)
+                    loop.run_forever()
+                acc["v"] = caller.cancel()
             loop.advance_to(t0 + t)
             if at is None and caller.done():
                 at = status()
             if tm is None and caller.done() and (info["ended"] or not info["started"]):
-                own = 1 if (c is not None and c > t) else 0   # the harness's own cancel timer
+                own = 1 if (c is not None and ck is None and c > t) else 0   # the harness's own cancel timer
                 tm = loop.pending_timers() - own
         loop.quiesce(advance=True)
         if at is None and caller.done():
@@ -193,7 +227,7 @@ def run_real(case: str) -> str:
             out = f"{o}@{int(t) if t is not None and t == int(t) else t}"
         pend = sum(1 for t in asyncio.all_tasks(loop) if not t.done())
         end = info["ended"] or ("running" if info["started"] else "unstarted")
-        return f"out={out} at={at or '-'} end={end} seen={info['seen']} pend={pend} handler={len(handler_calls)} tm={'-' if tm is None else tm}"
+        return f"out={out} at={at or '-'} end={end} seen={info['seen']} pend={pend} handler={len(handler_calls)} tm={'-' if tm is None else tm} acc={'-' if 'v' not in acc else int(bool(acc['v']))}"
     except vloop.NoQuiescence:
         return "HANG(no-quiescence)"
     finally:
@@ -213,6 +247,8 @@ def has_tie(case: str) -> bool:
         return False
     ts = [d, dl] + ([c] if c is not None else [])
     return len(set(ts)) < len(ts) or c == 0   # c=0 ties with the start of the call itself
+    # (c=<t>+<k> with t an event instant is a tie of the two by construction: the model answers with the
+    #  outcomes of every position of the cancellation among that instant's callbacks)
 
 
 def canon(case: str, out: str) -> str:
@@ -244,7 +280,7 @@ OUTCOME_OF_KIND = {"val": "res", "exc": "exc", "base": "base", "self": "cancelle
 def fields(out: str) -> dict[str, str] | None:
     try:
         f = dict(t.split("=", 1) for t in out.split())
-        for k in ("out", "at", "end", "seen", "pend", "handler", "tm"):
+        for k in ("out", "at", "end", "seen", "pend", "handler", "tm", "acc"):
             f[k]
         f["okind"], f["otime"] = f["out"].split("@", 1)
         return f
@@ -276,7 +312,10 @@ def monitor(case: str, out: str) -> list[str]:
     if f["okind"] == "hang":
         fails.append("timeout.caller-hangs")
         return sorted(set(fails))
-    if f["okind"] not in allowed:
+    if f["acc"] == "1" and f["okind"] != "cancelled":
+        # cancel() was accepted (the caller had not finished) yet the caller did not end cancelled
+        fails.append("timeout.caller-cancellation-swallowed")
+    elif f["okind"] not in allowed:
         fails.append("timeout.wrong-outcome")
     elif f["otime"] != str(first_t):
         fails.append("timeout.wrong-instant")
@@ -327,7 +366,7 @@ def classify(case: str, out: str):
 
 def mutate(rng, case: str) -> str:
     try:
-        d, k, ig, dl, c = parse(case)
+        d, k, ig, dl, c, ck = parse_full(case)
     except Exception:  # noqa: BLE001
         return "d=1 k=val ig=0 D=2 c=-"
     for _ in range(rng.randint(1, 2)):
@@ -338,31 +377,38 @@ def mutate(rng, case: str) -> str:
             dl = max(0, dl + rng.choice((-2, -1, 1, 2)))
         elif r == 2:
             c = None if rng.random() < 0.3 else max(0, (c or 0) + rng.choice((-2, -1, 0, 1, 2)))
+            ck = None if c is None or rng.random() < 0.4 else rng.randint(0, 6)
         elif r == 3:
             k = rng.choice(KINDS)
         else:
             ig = not ig
-    return fmt(d, k, ig, dl, c)
+    return fmt(d, k, ig, dl, c, ck if c is not None else None)
 
 
 def shrink(case: str):
     try:
-        d, k, ig, dl, c = parse(case)
+        d, k, ig, dl, c, ck = parse_full(case)
     except Exception:  # noqa: BLE001
         return
     if c is not None:
         yield fmt(d, k, ig, dl, None)
     if ig:
-        yield fmt(d, k, False, dl, c)
+        yield fmt(d, k, False, dl, c, ck)
     for d2 in sorted({0, 1, d // 2, d - 1}):
         if 0 <= d2 < d:
-            yield fmt(d2, k, ig, dl, c)
+            yield fmt(d2, k, ig, dl, c, ck)
     for dl2 in sorted({0, 1, dl // 2, dl - 1}):
         if 0 <= dl2 < dl:
-            yield fmt(d, k, ig, dl2, c)
+            yield fmt(d, k, ig, dl2, c, ck)
     if c:
         for c2 in sorted({0, c // 2, c - 1}):
             if 0 <= c2 < c:
-                yield fmt(d, k, ig, dl, c2)
+                yield fmt(d, k, ig, dl, c2, ck)
     if k != "val":
-        yield fmt(d, "val", ig, dl, c)
+        yield fmt(d, "val", ig, dl, c, ck)
+    if ck:
+        for k2 in sorted({0, ck - 1}):
+            if k2 < ck:
+                yield fmt(d, k, ig, dl, c, k2)
+    if ck is not None:
+        yield fmt(d, k, ig, dl, c)
